@@ -308,7 +308,8 @@ pub fn flate_decode(data: &[u8], params: &LZWFlateParams) -> Result<Vec<u8>> {
     // Then unfilter (PNG)
     // For this, take the old out as input, and write output to out
 
-    if predictor > 10 {
+    // 10..=15 are the PNG predictors: every row starts with a tag byte naming its filter (also for 10, `None`)
+    if predictor >= 10 {
         let (bpp, stride) = predictor_geometry(params)?;
         let inp = decoded; // input buffer
         let rows = inp.len() / (stride+1);
